@@ -14,7 +14,7 @@ RULE = ("files whose modification times sit on the grid a-1, a, a+1, b-1, b, b+1
         "`modified` column vs the Lean model, (b) oracle: Python datetime interval arithmetic. distinct = "
         "(zone, literal, operator); nontrivial = the operator separates the grid")
 
-DATES = [(2024, 2, 29), (2023, 12, 31), (2024, 1, 1), (2023, 2, 28), (2000, 2, 29), (2024, 3, 31), (2021, 6, 15)]
+DATES = [(2024, 2, 29), (2023, 12, 31), (1969, 12, 31), (2024, 1, 1), (2023, 2, 28), (1968, 2, 29), (2000, 2, 29), (2024, 3, 31), (2021, 6, 15), (1970, 1, 1)]   # also before the epoch: file times are negative there, and floor, not truncation, gives the second
 OPS = ["=", "!=", "<", ">", "<=", ">=", "===", "!==", "eq", "gt", "lte"]
 # the days on which the clocks change in the daylight-saving zones (a 25-hour and a 23-hour day each): a day
 # literal still denotes local 00:00:00 .. 23:59:59 of that calendar day
@@ -87,7 +87,9 @@ def run(ctx):
                     break
             for text, prec in lits:
                 for op in (OPS if not quick else r.sample(OPS, 6)):
-                    for quoted in ((True, False) if " " not in text else (True,)):
+                    # an unquoted literal of a year before 1970 is arithmetic to the lexer (`1969-12-31` = 1926: its date test
+                    # takes the years 1970..2999, documented as an optimistic assumption): such literals are written quoted
+                    for quoted in ((True, False) if " " not in text and y >= 1970 else (True,)):
                         lit = "'%s'" % text if quoted else text
                         q = "select name from . where modified %s %s into list" % (op, lit)
                         ctx.case((tz, text, op, quoted))
